@@ -1,8 +1,8 @@
 SPECIFICATION Spec
 CONSTANTS
   Labels = {"a", "b"}
-  MaxCalls = 6
-  MaxBlocks = 22
+  MaxCalls = 5
+  MaxBlocks = 19
   ApiLevel = FALSE
   DevUndefinedGoto = TRUE
   DevDuplicateLabel = TRUE
